@@ -94,32 +94,33 @@ func c16Requests() []*bfe_basic.Request {
 
 // ---- enumeration of expression skeletons -----------------------------------
 // A skeleton is a string over  p ! & | ( )  where p is a primitive occurrence.
-//   seq(n,d)     := operand(n1,d) op operand(n2,d) op ... (all compositions of n, all op choices)
-//   operand(n,d) := !^j p            (n == 1)
-//                 | !^j ( seq(n,d-1) )   (d > 0)
-// with j in 0..maxNot. Every string of the documented grammar with <= n
-// primitive occurrences, paren nesting <= d and <= maxNot consecutive '!'
-// is produced exactly once.
+//   seq(n,a,b)     := operand | operand op seq          (op in {&,|})
+//   operand(n,a,b) := !^j p  |  !^j ( seq )
+// with exactly n occurrences of p, a occurrences of '!' and b parenthesis
+// pairs. The grammar is unambiguous, so every string of the documented grammar
+// with these counts is produced exactly once (redundant parentheses and "!!"
+// included).
+
+type c16Key struct{ n, a, b int }
 
 type c16Enum struct {
-	maxNot int
-	memoS  map[[2]int][]string
-	memoO  map[[2]int][]string
+	memoS map[c16Key][]string
+	memoO map[c16Key][]string
 }
 
-func (e *c16Enum) operand(n, d int) []string {
-	key := [2]int{n, d}
+func (e *c16Enum) operand(n, a, b int) []string {
+	key := c16Key{n, a, b}
 	if v, ok := e.memoO[key]; ok {
 		return v
 	}
-	var out []string
-	for j := 0; j <= e.maxNot; j++ {
+	out := []string{}
+	for j := 0; j <= a; j++ {
 		nots := strings.Repeat("!", j)
-		if n == 1 {
+		if n == 1 && b == 0 && a == j {
 			out = append(out, nots+"p")
 		}
-		if d > 0 {
-			for _, s := range e.seq(n, d-1) {
+		if b >= 1 {
+			for _, s := range e.seq(n, a-j, b-1) {
 				out = append(out, nots+"("+s+")")
 			}
 		}
@@ -128,24 +129,41 @@ func (e *c16Enum) operand(n, d int) []string {
 	return out
 }
 
-func (e *c16Enum) seq(n, d int) []string {
-	key := [2]int{n, d}
+func (e *c16Enum) seq(n, a, b int) []string {
+	key := c16Key{n, a, b}
 	if v, ok := e.memoS[key]; ok {
 		return v
 	}
-	var out []string
-	// first operand takes k leaves, the rest is op + seq(n-k)
-	out = append(out, e.operand(n, d)...)
+	out := append([]string{}, e.operand(n, a, b)...)
 	for k := 1; k < n; k++ {
-		first := e.operand(k, d)
-		rest := e.seq(n-k, d)
-		for _, f := range first {
-			for _, r := range rest {
-				out = append(out, f+"&"+r, f+"|"+r)
+		for a1 := 0; a1 <= a; a1++ {
+			for b1 := 0; b1 <= b; b1++ {
+				first := e.operand(k, a1, b1)
+				if len(first) == 0 {
+					continue
+				}
+				rest := e.seq(n-k, a-a1, b-b1)
+				for _, f := range first {
+					for _, r := range rest {
+						out = append(out, f+"&"+r, f+"|"+r)
+					}
+				}
 			}
 		}
 	}
 	e.memoS[key] = out
+	return out
+}
+
+// all returns every skeleton with exactly n occurrences, <= maxNot '!' and
+// <= maxParen parenthesis pairs.
+func (e *c16Enum) all(n, maxNot, maxParen int) []string {
+	var out []string
+	for a := 0; a <= maxNot; a++ {
+		for b := 0; b <= maxParen; b++ {
+			out = append(out, e.seq(n, a, b)...)
+		}
+	}
 	return out
 }
 
@@ -381,7 +399,7 @@ func (st *c16State) report() {
 }
 
 func c16(r *vkit.Run) {
-	r.SetRule("EXHAUSTIVE part: every string of the documented grammar with <=4 primitive occurrences (i-th occurrence = i-th controllable primitive), <=2 consecutive '!', parenthesis nesting <=3 for <=3 occurrences and <=2 for 4 (every operator mix, every parenthesisation incl. redundant parens), each rendered compactly and once with seeded random blanks/tabs/newlines between tokens and inside calls; RANDOM part: deep strings with 5-12 occurrences of 8 primitives (repeats allowed), nesting <=5. Each string is evaluated on all 2^k assignments of the k primitives it uses (req_method_in, req_host_in, req_path_in, req_header_key_in, req_query_key_in, req_cookie_key_in, req_proto_secure, req_cip_range; truth set per request). Oracle: ref/cond recursive-descent parser of the documented table. Non-trivial = >=2 primitive occurrences; distinct = source string. precedence_sensitive_exprs = strings whose value differs under at least one of 7 wrong grammars (so a precedence/associativity error would be visible). Associativity of a single operator kind cannot change a truth value and is therefore only observable through precedence.")
+	r.SetRule("EXHAUSTIVE part: every string of the documented grammar with <=4 primitive occurrences (i-th occurrence = i-th controllable primitive), <=2 '!' and <=3 parenthesis pairs (<=2 pairs for 4 occurrences, which covers all 5 groupings) = 21386 strings: every operator mix, every parenthesisation incl. redundant parentheses and '!!', each rendered compactly and once with seeded random blanks/tabs/newlines between tokens and inside calls; RANDOM part: deep strings with 5-12 occurrences of 8 primitives (repeats allowed), nesting <=5. Each string is evaluated on all 2^k assignments of the k primitives it uses (req_method_in, req_host_in, req_path_in, req_header_key_in, req_query_key_in, req_cookie_key_in, req_proto_secure, req_cip_range; truth set per request). Oracle: ref/cond recursive-descent parser of the documented table. Non-trivial = >=2 primitive occurrences; distinct = source string. precedence_sensitive_exprs = strings whose value differs under at least one of 7 wrong grammars (so a precedence/associativity error would be visible). Associativity of a single operator kind cannot change a truth value and is therefore only observable through precedence.")
 	r.Assume("the 8 controlling primitives evaluate as set by the harness (checked first with single-primitive expressions; otherwise inconclusive)")
 	st := &c16State{r: r, reqs: c16Requests(), atom: map[string]int{}, altOK: make([]bool, len(refc.Alternatives))}
 	for i := range st.altOK {
@@ -431,14 +449,17 @@ func c16(r *vkit.Run) {
 	}
 
 	// 1. exhaustive
-	en := &c16Enum{maxNot: 2, memoS: map[[2]int][]string{}, memoO: map[[2]int][]string{}}
+	en := &c16Enum{memoS: map[c16Key][]string{}, memoO: map[c16Key][]string{}}
 	var skels []string
 	for n := 1; n <= 4; n++ {
-		d := 3
+		maxParen := 3
 		if n == 4 {
-			d = 2
+			maxParen = 2 // enough for every grouping of 4 operands
 		}
-		skels = append(skels, en.seq(n, d)...)
+		skels = append(skels, en.all(n, 2, maxParen)...)
+	}
+	if len(skels) != 34+672+7680+13000 {
+		r.Inconclusive(fmt.Sprintf("harness: skeleton enumeration produced %d strings, expected 21386", len(skels)))
 	}
 	r.Count("exhaustive_skeletons", int64(len(skels)))
 	ident := []int{0, 1, 2, 3}
